@@ -3,6 +3,7 @@ package queries
 import (
 	"fmt"
 	"math/big"
+	"slices"
 
 	"github.com/formancehq/go-libs/v5/pkg/types/time"
 )
@@ -217,11 +218,13 @@ func (t TypeMap) Index() FieldType {
 }
 
 func (t TypeMap) Operators() []string {
+	// $in has no map form: handlers emit `metadata @> {"k": value}`, which an array value never satisfies
+	ops := slices.DeleteFunc(t.underlyingType.Operators(), func(op string) bool { return op == OperatorIn })
 	if _, ok := t.underlyingType.(TypeString); !ok {
 		// $exists tests a key of a string map (metadata); numeric maps (balance) have no SQL form for it
-		return append(t.underlyingType.Operators(), OperatorMatch)
+		return append(ops, OperatorMatch)
 	}
-	return append(t.underlyingType.Operators(), OperatorMatch, OperatorExists)
+	return append(ops, OperatorMatch, OperatorExists)
 }
 
 func (t TypeMap) ValidateValue(operator string, value any) error {
